@@ -384,23 +384,45 @@ fn run_family(r: &Report, fam: &Family, viol: &mut BTreeMap<String, (u64, Value)
     if !complete {
         r.cap_hit(&format!("tick emulation family '{}' interrupted by the wall cap", fam.label));
     }
-    // fold failures onto minimal live op-kind sets per symptom
+    // Fold failures onto minimal generators per symptom: a failure whose class parts (the
+    // '&'-separated change classes) and live op kinds are supersets of an already seen, smaller
+    // failure with the same head is counted under that one.
+    let split = |sig: &str| -> (String, Vec<String>) {
+        match sig.rfind(':') {
+            Some(p) => (
+                sig[..p].to_string(),
+                sig[p + 1..].split('&').map(String::from).collect(),
+            ),
+            None => (sig.to_string(), Vec::new()),
+        }
+    };
     let sz = |si: u32| state_size(&uni.states[si as usize]);
-    tot.bad.sort_by(|x, y| {
-        (x.0.as_str(), x.1.count_ones(), fam.sets[x.3 as usize].len(), x.1, sz(x.2), x.2, x.3)
-            .cmp(&(y.0.as_str(), y.1.count_ones(), fam.sets[y.3 as usize].len(), y.1, sz(y.2), y.2, y.3))
+    let mut occ: Vec<(String, Vec<String>, u8, u32, u32)> = tot
+        .bad
+        .iter()
+        .map(|(sig, k, si, oi)| {
+            let (h, p) = split(sig);
+            (h, p, *k, *si, *oi)
+        })
+        .collect();
+    occ.sort_by(|x, y| {
+        (x.0.as_str(), x.1.len(), x.2.count_ones(), fam.sets[x.4 as usize].len(), &x.1, x.2, sz(x.3), x.3, x.4)
+            .cmp(&(y.0.as_str(), y.1.len(), y.2.count_ones(), fam.sets[y.4 as usize].len(), &y.1, y.2, sz(y.3), y.3, y.4))
     });
-    let mut gens: Vec<(String, u8)> = Vec::new();
-    for (sym, kinds, si, oi) in &tot.bad {
-        let g = match gens.iter().find(|(s, g)| s == sym && (g & kinds) == *g) {
+    let mut gens: Vec<(String, Vec<String>, u8)> = Vec::new();
+    for (head, parts, kinds, si, oi) in &occ {
+        let g = match gens
+            .iter()
+            .find(|(h, p, k)| h == head && p.iter().all(|x| parts.contains(x)) && (k & kinds) == *k)
+        {
             Some(g) => g.clone(),
             None => {
-                gens.push((sym.clone(), *kinds));
-                (sym.clone(), *kinds)
+                gens.push((head.clone(), parts.clone(), *kinds));
+                (head.clone(), parts.clone(), *kinds)
             }
         };
-        let names: Vec<&str> = (0..8).filter(|i| g.1 & (1 << i) != 0).map(|i| OP_KINDS[i]).collect();
-        let sig = format!("{}:tick-ops={}", g.0, names.join("+"));
+        let names: Vec<&str> = (0..8).filter(|i| g.2 & (1 << i) != 0).map(|i| OP_KINDS[i]).collect();
+        let sig = format!("{}:{}:tick-ops={}", g.0, g.1.join("&"), names.join("+"));
         match viol.get_mut(&sig) {
             Some(e) => e.0 += 1,
             None => {
